@@ -55,13 +55,14 @@ theorem cinv_step {s : State} {D : Node} (V : VInv s D) (J : JInv s) (h : Handle
       rw [hn] at hstep
       obtain ⟨hpre, hpost⟩ := mut_ok hstep hdir
       have hnc := norm_cachePath hshape raw p hn
-      have hlast : Plain (lastSeg (cachePath h p raw)) := by
-        simp only [writeClass, cacheOp_writeFile hshape raw [] p hn, Bool.and_eq_true, decide_eq_true_eq] at hc
-        exact hc.2
+      have hne : b ++ p ≠ [] := hpre.1
+      have hcp : cleanPath (cachePath h p raw) = join (b ++ p) := Path.cleanPath_of_norm _ _ hnc hne
       rw [(step_eq_cachePath hshape s raw p hn).1 data]
       have hw := vinv_writeFile V (cachePath h p raw) data (b ++ p) hnc hpre hD' hpost
-      exact jinv_write_like J _ (b ++ p) data (cachePath h p raw) hnc (norm_pathDir _ _ hnc hlast)
-        (V.writeOk hpre) hw.2.2 rfl rfl rfl rfl
+      refine jinv_write_like J _ (b ++ p) data (cleanPath (cachePath h p raw))
+        (Path.norm_cleanPath _ _ hnc) ?_ (V.writeOk hpre) hw.2.2.1 hw.2.2.2 rfl rfl rfl
+      rw [hcp]
+      exact norm_pathDir_join _ (Path.norm_reduced _ _ hnc) hne
   | writer raw cs =>
     simp only [FS.Step] at hstep
     cases hn : norm raw with
@@ -75,7 +76,7 @@ theorem cinv_step {s : State} {D : Node} (V : VInv s D) (J : JInv s) (h : Handle
       rw [(step_eq_cachePath hshape s raw p hn).2.1 cs]
       have hw := vinv_writer V (cachePath h p raw) cs (b ++ p) hnc hpre hD' hpost
       refine jinv_write_like J _ (b ++ p) cs.flatten (cleanPath (cachePath h p raw))
-        (Path.norm_cleanPath _ _ hnc) ?_ (V.writeOk hpre) hw.2.2 rfl rfl rfl rfl
+        (Path.norm_cleanPath _ _ hnc) ?_ (V.writeOk hpre) hw.2.2.1 hw.2.2.2 rfl rfl rfl
       rw [hcp]
       exact norm_pathDir_join _ (Path.norm_reduced _ _ hnc) hne
   | mkdirAll raw =>
